@@ -274,6 +274,49 @@ pub fn gen_c05(r: &mut Rng, tier: &str) -> Vec<Case> {
             }
             cases.push(Case { class: format!("{}:{}", cls, layout.shape()), input: case_sx(&table, &layout, &[q]) });
         }
+        // a sort key that is NULL throughout one of >= 3 partitions: that partition's result is typed
+        // Null and the k-way merge compares the other partitions' keys as dynamically typed values
+        {
+            let nb = 3 + r.below(2) as usize;
+            let per = 2 + r.below(4) as usize;
+            let n = nb * per;
+            let hole = r.below(nb as u64) as usize;
+            let kind = *r.pick(&[Kind::Str, Kind::Str, Kind::Int, Kind::Float]);
+            let omit = r.chance(1, 2);
+            let words = ["alpha", "bravo", "charlie", "delta", "echo", "kilo", "mike", "yankee", "zulu", "a", "", "Zebra"];
+            let cells: Vec<V> = (0..n)
+                .map(|i| {
+                    if i / per == hole {
+                        V::Null
+                    } else {
+                        match kind {
+                            Kind::Str => V::s(*r.pick(&words)),
+                            Kind::Int => V::Int(r.range(-50, 50)),
+                            Kind::Float => V::f(r.range(-50, 50) as f64 / 2.0),
+                        }
+                    }
+                })
+                .collect();
+            let t2 = Table { cols: vec![id_col(n), crate::val::Col { name: "key".into(), kind, omit_when_null: omit, cells }] };
+            let mut l2 = Layout::single(n);
+            l2.batches = vec![per; nb];
+            l2.flush = (0..nb).map(|i| i + 1 < nb || r.chance(1, 2)).collect();
+            l2.threads = *r.pick(&[1usize, 2]);
+            let mut qs = vec![];
+            for desc in [true, false] {
+                let mut q = Query::select(vec![Sel::Plain(Expr::Col(1))]);
+                if r.chance(1, 2) {
+                    q.select.push(Sel::Plain(Expr::Col(ID)));
+                }
+                q.order.push((OKey::Expr(Expr::Col(1)), desc));
+                if r.chance(1, 3) {
+                    q.limit = Some((n - r.below(3) as usize) as u64); // well above half a partition: no top-n
+                }
+                qs.push(q);
+            }
+            let cls = format!("null-partition-key-{}{}", match kind { Kind::Str => "str", Kind::Int => "int", Kind::Float => "float" }, if omit { "-absent" } else { "" });
+            cases.push(Case { class: format!("{}:hole{}of{}", cls, hole, nb), input: case_sx(&t2, &l2, &qs) });
+        }
     }
     cases
 }
